@@ -1541,6 +1541,8 @@ MUTANTS += [
       "                    self.shell_n_sample_exp = np.copy(self.shell_n_sample)\n",
       "                    self.shell_n_sample_exp = np.asarray(self.shell_n_sample)\n",
       'C12 C02'),
+    M('configured-minimum-not-handed-on', S, "                        n_points_min=self.n_points_min,\n", "", 'C13'),
+    M('periodic-set-not-handed-on', S, "                        periodic=self.periodic,\n", "", 'C16'),
     M('prune-guard-all-empty', S, "                    if np.any(self.shell_n == 0):\n",
       "                    if np.all(self.shell_n == 0):\n", 'C12'),
 ]
